@@ -28,6 +28,7 @@ type c06Desc struct {
 	AllBytes bool    `json:"allbytes,omitempty"`
 	Gen1Puts int     `json:"gen1puts,omitempty"`  // blocks of the first generation (default 2)
 	Puts     int     `json:"puts,omitempty"`      // blocks of the session under test (default 1-5)
+	Strace   bool    `json:"strace,omitempty"`    // hook-independence cross-check instead of crash enumeration
 	Sha256   bool    `json:"sha256,omitempty"`    // only raw sha2-256 blocks (the common case: one hash code, one digest width in the index)
 	OnlyEv   int     `json:"only_ev,omitempty"`   // replay: event index + 1
 	OnlyTear int     `json:"only_tear,omitempty"` // replay: tear + 1
@@ -135,19 +136,16 @@ type c06Loc struct{ off, end uint64 }
 
 func blockKey(b refcar.Block) string { return string(b.Cid) + "|" + string(b.Data) }
 
-func runC06(t *mon.T, raw json.RawMessage) {
-	var d c06Desc
-	if err := json.Unmarshal(raw, &d); err != nil {
-		panic(err)
-	}
+// c06Plan derives the blocks of a case from its descriptor: first generation, the session under
+// test, and the two continuation blocks. Honest, pairwise distinct blocks (so that "intact bytes"
+// is decidable by re-hashing and acknowledgements are unambiguous).
+func c06Plan(d c06Desc) (gen1, sess, cont []refcar.Block, large bool) {
 	r := gen.Rand(d.Seed)
-	cfg := d.Cfg
-	// honest, pairwise distinct blocks (so that "intact bytes" is decidable by re-hashing and acks are unambiguous)
 	mk := func(n int) []refcar.Block {
 		var out []refcar.Block
 		seen := map[string]bool{}
 		for len(out) < n {
-			b := gen.HonestBlock(r, gen.BlockOpts{Size: -1, MaxSize: 260, NoIdentity: !cfg.StoreID})
+			b := gen.HonestBlock(r, gen.BlockOpts{Size: -1, MaxSize: 260, NoIdentity: !d.Cfg.StoreID})
 			if d.Sha256 {
 				data := gen.Bytes(r, 1+r.Intn(40))
 				dg, _ := refcar.Hash(0x12, data)
@@ -171,13 +169,28 @@ func runC06(t *mon.T, raw json.RawMessage) {
 		ns = d.Puts
 	}
 	all := mk(n1 + ns + 2) // first generation + session + continuation (2)
-	gen1, sess, cont := all[:n1], all[n1:len(all)-2], all[len(all)-2:]
-	if n1+ns >= 25 {
+	gen1, sess, cont = all[:n1], all[n1:len(all)-2], all[len(all)-2:]
+	if r.Intn(5) == 0 {
+		sess = append(append([]refcar.Block{}, sess...), gen.BoundaryBlock(r, 700+r.Intn(2000)))
+	}
+	return gen1, sess, cont, n1+ns >= 25
+}
+
+func runC06(t *mon.T, raw json.RawMessage) {
+	var d c06Desc
+	if err := json.Unmarshal(raw, &d); err != nil {
+		panic(err)
+	}
+	if d.Strace {
+		runC06Strace(t, d)
+		return
+	}
+	cfg := d.Cfg
+	gen1, sess, cont, large := c06Plan(d)
+	if large {
 		t.Cover("large-sessions(index > 1 KiB)")
 	}
-	if r.Intn(5) == 0 {
-		sess = append(sess, gen.BoundaryBlock(r, 700+r.Intn(2000)))
-	}
+	all := append(append(append([]refcar.Block{}, gen1...), sess...), cont...)
 	rootsRaw := [][]byte{all[0].Cid}
 	roots := lab.ToCids(rootsRaw, false)
 	dir := lab.TempDir("c06")
@@ -509,6 +522,10 @@ func genC06(g *mon.G) {
 	for i := 0; i < n; i++ {
 		g.Emit(c06Desc{Seed: r.Int63(), API: []string{"blockstore", "storage"}[i%2], Cfg: cfgs[(i/2)%len(cfgs)], FirstGen: gens[(i/16)%len(gens)], AllBytes: g.Thorough() || i%8 == 0})
 	}
+	// hook-independence: the hook trace vs the system calls strace sees on an untapped child
+	for i := 0; i < g.Pick(12, 80); i++ {
+		g.Emit(c06Desc{Seed: r.Int63(), API: "blockstore", Cfg: cfgs[i%len(cfgs)], FirstGen: gens[i%len(gens)], Strace: true})
+	}
 	// large sessions: the index of 25+ blocks exceeds 1 KiB, so its bytes can pass for a data section
 	// (0x81 0x08 = a 1025-byte length prefix, followed by what parses as an empty identity CID)
 	for i := 0; i < g.Pick(12, 96); i++ {
@@ -528,10 +545,10 @@ func init() {
 		ID:          "C06",
 		Level:       "fault_enumeration",
 		Rule:        "cases = seeded writing sessions (open, 1-5 puts of honest distinct blocks, Finalize) x 8 option configurations x {blockstore.OpenReadWriteFile traced through the verif hooks, storage on a tracing memfile} x {fresh file, resuming a discarded file, resuming a finalized file}, plus large sessions (26-40 sha2-256 blocks, index > 1 KiB, with and without ZeroLengthSectionAsEOF, fresh or resuming a finalized file); the ordered mutation trace with call/ack markers is cut at EVERY event boundary and, within every write, at torn lengths {1, mid, len-1} (quick; every byte for 1 in 8 cases) or every byte (thorough, writes ≤ 600 B); each crash image is reopened with the same roots/options and judged: on error every acknowledged section must still be intact in the file left behind; on success every acknowledged block must be present with exact bytes, nothing that was never put may be listed, in-flight blocks if present must be intact, and after two more puts and Finalize the archive must decode strictly, verify, hold all acknowledged + new blocks and nothing unknown, with exact index and header. counters.crash-images counts images",
-		Assumptions: []string{"crash model = prefix of the issued writes with the last write torn (no reordering), as the property states", "trace completeness is checked per session: replaying the trace must reproduce the final file"},
+		Assumptions: []string{"crash model = prefix of the issued writes with the last write torn (no reordering), as the property states", "trace completeness is checked per session: replaying the trace must reproduce the final file", "hook independence: for 12 (quick) / 80 (thorough) blockstore sessions the hook trace is compared call by call with the pwrite64/ftruncate system calls strace records for the same session in an untapped child process (inconclusive if strace cannot attach)"},
 		Gen:         genC06,
 		Run:         runC06,
 		MinCover: map[string]int{"crash-images": 3000, "reopen:accepted": 500, "reopen:rejected": 100, "continued-and-finalized": 500,
-			"cut:put.section.data:torn": 50, "cut:put.section.cid:torn": 50, "cut:finalize.index": 50, "cut:finalize.header.fields:torn": 20, "cut:resume.truncate": 5, "cut:resume.unfinalize-header.fields:torn": 5, "cut:open.payload-header:torn": 10, "large-sessions(index > 1 KiB)": 8},
+			"cut:put.section.data:torn": 50, "cut:put.section.cid:torn": 50, "cut:finalize.index": 50, "cut:finalize.header.fields:torn": 20, "cut:resume.truncate": 5, "cut:resume.unfinalize-header.fields:torn": 5, "cut:open.payload-header:torn": 10, "large-sessions(index > 1 KiB)": 8, "strace:cases": 4},
 	})
 }
